@@ -15,7 +15,7 @@ use crate::nodes::{
     VariableAssignment,
 };
 use crate::process::{
-    to_expression, DefaultVisitor, IdentifierTracker, NodeProcessor, NodeVisitor, ScopeVisitor,
+    to_expression, IdentifierTracker, NodeProcessor, NodeVisitor, ScopeVisitor,
 };
 use crate::rules::require::{is_require_call, match_path_require_call, PathLocator};
 use crate::rules::{
@@ -223,9 +223,11 @@ impl<'a, 'b, 'resources, PathLocatorImpl: PathLocator>
                     }
 
                     let current_source = mem::replace(&mut self.source, path.to_path_buf());
+                    let current_identifier_tracker =
+                        mem::replace(&mut self.identifier_tracker, IdentifierTracker::new());
 
                     let apply_processor_timer = Timer::now();
-                    DefaultVisitor::visit_block(&mut block, self);
+                    ScopeVisitor::visit_block(&mut block, self);
 
                     log::debug!(
                         "processed `{}` into bundle in {}",
@@ -234,6 +236,7 @@ impl<'a, 'b, 'resources, PathLocatorImpl: PathLocator>
                     );
 
                     self.source = current_source;
+                    self.identifier_tracker = current_identifier_tracker;
 
                     Ok(RequiredResource::Block(block))
                 }
